@@ -42,6 +42,10 @@ def h_variance_lemma(eng):
     p = tp.TypeParameter('T', univ.VAR[pv])
     others = [tp.TypeParameter('U'), tp.TypeParameter('V', bound=p if in_bound else None)]
     choices = None if mode == 0 else LazyChoices(mode == 2, (can_co, can_contra), p)
+    if bool(eng.fresh_bool('earlier_call_with_switches_enabled')):
+        # the answer must not depend on calls made under other switch values earlier in the process
+        with installed(eng), config(dis__use_site_variance=False, dis__use_site_contravariance=False):
+            tu._get_type_arg_variance(tp.TypeParameter('T', univ.VAR[pv]), {}, [])
     with installed(eng), config(dis__use_site_variance=dis_usv, dis__use_site_contravariance=dis_contra):
         res = tu._get_type_arg_variance(p, choices, others)
     rv = res.value
